@@ -259,6 +259,9 @@ class Ref:
         self._struct = 0
         self._trial = 0
         self._trial_marks = []
+        from .terms import walk as _walk
+
+        self._named = {n[1]: n for n in _walk(term) if n[0] == "ds"}
         try:
             v = self.ev(term, copy.deepcopy(o))
             # lazy iterables (Iter, Map) are materialised here, exactly like the
@@ -809,6 +812,9 @@ class Ref:
     def ev_ds(self, t, o):
         return self._dataset(t, o)
 
+    def ev_dsref(self, t, o):
+        return self._dataset(self._named[t[1]], o)
+
     def ev_dswo(self, t, o):
         base, Ps, Ds = t, [], []
         return self._derived(t, o)
@@ -823,6 +829,8 @@ class Ref:
         while cur[0] in ("dswo", "dswdo"):
             chain.append(cur)
             cur = cur[1]
+        if cur[0] == "dsref":
+            cur = self._named[cur[1]]
         for c in reversed(chain):  # innermost (applied first) to outermost
             if c[0] == "dswo":
                 P = overlay(c[2], P)  # nested pre-setting: the inner (earlier) one wins
